@@ -1466,7 +1466,7 @@ mod_auth_digest_validate_nonce (request_st * const r, const struct http_auth_req
         ts = (unix_time64_t)((uint64_t)ts << 4) | hex2int(nonce[i]);
 
     const unix_time64_t cur_ts = log_epoch_secs;
-    if (nonce[i++] != ':' || ts > cur_ts || cur_ts - ts > 600) { /*(10 mins)*/
+    if (nonce[i++] != ':' || ts < 0 || ts > cur_ts || cur_ts - ts > 600) { /*(10 mins)*/
         /* nonce is stale; have client regenerate digest */
         return mod_auth_send_401_unauthorized_digest(r, require, ai->dalgo);
     }
